@@ -91,7 +91,9 @@ def oracleC07 (c : TCase) : Verdict :=
               if s.stop && !withinOneChunk bounds s.outOff olen then
                 { s with fail := some s!"one read returned data from two chunks with boundary stopping on: {t.raw}" } else
               -- liveness: everything that remains was offered, there is room, yet nothing moved
-              if i == 0 && olen == 0 && cap ≥ 1 && s.off + wlen ≥ encLen && s.off < encLen && (s.outOff < payload.length || true) && wlen > 0 then
+              -- (once the whole payload has been delivered nothing more will ever be produced: then the size of
+              -- the output buffer — zero included — cannot be what holds the rest of the framing back)
+              if i == 0 && olen == 0 && (cap ≥ 1 || s.outOff == payload.length) && s.off + wlen ≥ encLen && s.off < encLen && wlen > 0 then
                 { s with fail := some s!"stuck: whole remaining coding offered with room, no progress at {s.off} of {encLen}: {t.raw}" } else
               { s with off := s.off + i, outOff := s.outOff + olen, started := true }
             | _, _ => s
@@ -117,6 +119,7 @@ structure C08St where
   left : Nat
   delivered : Nat := 0
   inBody : Bool := false
+  sawHead : Bool := false
   fail : Option String := none
 
 def readChecks (t : TLine) (limit : Option Nat) : Option String × Nat :=
@@ -138,6 +141,9 @@ def oracleC08 (c : TCase) : Verdict :=
     | _, some (n :: _) => n.toNat?
     | _, _ => none
   let isClose := c.metas.any (· == "meta close")
+  let bodyOf : Option Bytes := match metaVal c "len" with
+    | some [_, h] => if h == "big" then none else some (unhex h)
+    | _ => none
   match lenN with
   | some N =>
     let st := c.lines.foldl (fun (s : C08St) t =>
@@ -147,7 +153,19 @@ def oracleC08 (c : TCase) : Verdict :=
         let (err, k) := readChecks t (some s.left)
         (match err with
          | some e => { s with fail := some e }
-         | none => { s with left := s.left - k, delivered := s.delivered + k, inBody := true })
+         | none =>
+           -- what is delivered are the bytes that follow the head (the generator says which they are), not
+           -- merely a prefix of whatever window the caller was led to present
+           let wrong := match bodyOf, t.res with
+             | some b, ["bytes", _, o] => !sameOut ((b.drop s.delivered).take k) o
+             | _, _ => false
+           if wrong then { s with fail := some s!"delivered bytes are not bytes {s.delivered}..{s.delivered + k} of the body that follows the head: {t.raw.take 160}" } else
+           { s with left := s.left - k, delivered := s.delivered + k, inBody := true })
+      | "resp" =>
+        -- the head that carries the declared length (the generator marks the case once it has offered it)
+        (match t.res with
+         | "resp" :: _ :: st' :: _ => if st' != "none" && (st'.toNat?.getD 0) ≥ 200 then { s with sawHead := true } else s
+         | _ => s)
       | "canproceed" | "cended" =>
         if t.st != "recvBody" && t.st != "callRecvBody" then s else
         (match t.res with
@@ -161,6 +179,9 @@ def oracleC08 (c : TCase) : Verdict :=
       | "proceed" | "proceed!" =>
         -- entering the body state counts as being in the body, also before the first read
         if (match t.res with | "state" :: "recvBody" :: _ => true | _ => false) then { s with inBody := true } else
+        -- the head that declared N > 0 bytes was handed out, and the flow went past the body state altogether
+        if !s.inBody && s.sawHead && N > 0 && (match t.res with | "state" :: nxt :: _ => nxt == "cleanup" || nxt == "redirect" | _ => false) then
+          { s with fail := some s!"the response declared {N} body bytes but the flow skipped the body state: {t.raw}" } else
         if !s.inBody && t.st != "recvBody" && s.left == N then s else
         (match t.res with
          | "state" :: _ => if s.left == 0 || !s.inBody then s else { s with fail := some s!"left the body with {s.left} bytes outstanding: {t.raw}" }
